@@ -160,33 +160,76 @@ def sort_list(v):
     return "[" + ",".join(sorted(inner.split(","))) + "]" if inner else "[]"
 
 
-def project_tx(rec):
+def project_tx(rec, events_on_commit=True):
     """what the properties speak about: outcome without error kind, database, deliveries as
-    multisets, commit actions, tx-complete calls"""
+    multisets, commit actions, tx-complete calls.  With events_on_commit=False (C07) the callbacks
+    of a committed transaction are not compared (C07 only demands that a failed one runs none)."""
     f = tx_fields(rec)
     r = f.get("r", "?")
     r = "ok" if r == "ok" else ("err" if r.startswith("err") else r)
     extra = " goroutines-still-running" if rec.endswith("goroutines-still-running") else ""
     # the property does not say on which goroutine commit actions run
     ca = sort_list(re.sub(r"(?<=[\[,])S\.", "A.", f.get("ca", "")))
+    if r == "ok" and not events_on_commit:
+        return "r=ok same=%s dump=%s%s" % (f.get("same"), f.get("dump"), extra)
     return "r=%s same=%s sync=%s async=%s ca=%s dump=%s%s" % (
         r, f.get("same"), sort_list(f.get("sync", "")), sort_list(f.get("async", "")), ca, f.get("dump"), extra)
 
 
-def spec_agrees(impl_line, spec_line):
-    """-> (agrees, index of first disagreeing transaction or None, compared transactions)"""
+def tx_disagreements(impl_line, spec_line, events_on_commit=True):
+    """indexes of the transactions on which implementation and spec disagree (up to the first
+    transaction the spec leaves unspecified); -1 for a different number of transactions"""
     a = impl_line.split(" | ")
     s = spec_line.split(" | ")
     if len(a) != len(s):
-        return False, 0, 0
-    n = 0
+        return [-1], 0
+    bad, n = [], 0
     for i, (x, y) in enumerate(zip(a, s)):
         if y == "unspecified":
-            return True, None, n
+            break
         n += 1
-        if project_tx(x) != y:
-            return False, i, n
-    return True, None, n
+        if project_tx(x, events_on_commit) != project_tx(y, events_on_commit):
+            bad.append(i)
+    return bad, n
+
+
+def spec_agrees(impl_line, spec_line, events_on_commit=True):
+    """-> (agrees, index of first disagreeing transaction or None, compared transactions)"""
+    bad, n = tx_disagreements(impl_line, spec_line, events_on_commit)
+    return (not bad), (bad[0] if bad else None), n
+
+
+def drop_tx_complete(v):
+    if not (v.startswith("[") and v.endswith("]")):
+        return v
+    return "[" + ",".join(x for x in v[1:-1].split(",") if x and not x.startswith("X.")) + "]"
+
+
+def matcher_batch_no_tx_complete(case, info):
+    """known finding: Db.Batch does not run the tx-complete listeners.  Matches iff EVERY disagreeing
+    transaction of the case is a committed Db.Batch transaction whose only difference to the spec is
+    the missing X.* (tx-complete) entries."""
+    try:
+        c = parse_case(case)
+    except Exception:
+        return False
+    bad, _n = tx_disagreements(info["impl"], info["spec"], True)
+    if not bad or -1 in bad or c["txl"] == 0:
+        return False
+    a = info["impl"].split(" | ")
+    s = info["spec"].split(" | ")
+    for i in bad:
+        if i >= len(c["txs"]) or c["txs"][i]["mode"] != "b":
+            return False
+        fa, fs = tx_fields(project_tx(a[i])), tx_fields(project_tx(s[i]))
+        if fa.get("r") != "ok" or fs.get("r") != "ok":
+            return False
+        for k in ("r", "same", "async", "ca", "dump"):
+            if fa.get(k) != fs.get(k):
+                return False
+        if fa.get("sync") != drop_tx_complete(fs.get("sync", "")) or fs.get("sync") == fa.get("sync"):
+            return False
+    return True
 
 
 def model_agrees(impl_line, model_line):
@@ -217,7 +260,7 @@ def failure_kinds(impl_line):
 # ------------------------------------------------------------------ the flow
 
 def run_flow(ctx, prop_lc, module, theorems, matchers, nontrivial, rule, table_obligations=(),
-             replay_cases=None, trusted=None):
+             replay_cases=None, trusted=None, events_on_commit=True):
     trusted = trusted or common.BASE_TRUST
     with common.Lock():
         common.build_tools(ctx)
@@ -254,7 +297,7 @@ def run_flow(ctx, prop_lc, module, theorems, matchers, nontrivial, rule, table_o
         for r in failure_kinds(a):
             hist[re.sub(r"[:.][0-9A-Z.]+$", "", r)] += 1
             txs += 1
-        ok, where, cmpd = spec_agrees(a, s)
+        ok, where, cmpd = spec_agrees(a, s, events_on_commit)
         compared += cmpd
         if "unspecified" in s:
             unspecified += 1
@@ -271,7 +314,8 @@ def run_flow(ctx, prop_lc, module, theorems, matchers, nontrivial, rule, table_o
             d["first_disagreeing_transaction"] = where
             recs = a.split(" | ")
             if where < len(recs):
-                d["impl_projected"] = project_tx(recs[where])
+                d["impl_projected"] = project_tx(recs[where], events_on_commit)
+                d["spec_projected"] = project_tx(s.split(" | ")[where], events_on_commit)
         return d
 
     ctx.coverage.update({
@@ -297,10 +341,10 @@ def run_flow(ctx, prop_lc, module, theorems, matchers, nontrivial, rule, table_o
             unknown.append(b)
     if unknown:
         c, a, m, s, where = min(unknown, key=lambda u: (len(u[0]), u[0]))
-        shrunk = shrink(ctx, prop_lc, c) if replay_cases is None else c
+        shrunk = shrink(ctx, prop_lc, c, matchers, events_on_commit) if replay_cases is None else c
         if shrunk != c:
             a2, m2, s2 = common.run_cases(ctx, prop_lc, shrunk + "\n")
-            ok, where2, _ = spec_agrees(a2[0], s2[0])
+            ok, where2, _ = spec_agrees(a2[0], s2[0], events_on_commit)
             if not ok:
                 c, a, m, s, where = shrunk, a2[0], m2[0], s2[0], where2
         common.violation(ctx, "property-fails-on-input", c,
@@ -320,8 +364,9 @@ def run_flow(ctx, prop_lc, module, theorems, matchers, nontrivial, rule, table_o
     return common.finish(ctx, trusted_base=trusted)
 
 
-def shrink(ctx, prop_lc, line, budget=250):
-    """greedy delta debugging on transactions, steps, registrations; keeps `implementation != spec`"""
+def shrink(ctx, prop_lc, line, matchers=None, events_on_commit=True, budget=250):
+    """greedy delta debugging on transactions, steps, registrations; keeps `implementation != spec`
+    (and does not shrink into a case that a known finding explains)"""
     try:
         cur = parse_case(line)
     except Exception:
@@ -331,8 +376,14 @@ def shrink(ctx, prop_lc, line, budget=250):
         a, _m, s = common.run_cases(ctx, prop_lc, cand_line + "\n")
         if len(a) != 1 or len(s) != 1 or a[0].startswith("panic") or s[0] == "bad-case":
             return False
-        ok, _w, _n = spec_agrees(a[0], s[0])
-        return not ok
+        ok, _w, _n = spec_agrees(a[0], s[0], events_on_commit)
+        if ok:
+            return False
+        for name, _text in common.load_known(ctx.prop):
+            fn = (matchers or {}).get(name)
+            if fn is not None and fn(cand_line, {"impl": a[0], "model": _m[0] if _m else "", "spec": s[0]}):
+                return False
+        return True
 
     used = 0
     progress = True
